@@ -225,6 +225,8 @@ INDEX_FORMS = [
     ((4,), "__import__('numpy').array([True, False, True, True])"), ((4,), "Ellipsis"), ((4,), "None"), ((4,), "(None, slice(None, 2))"), ((4,), "[]"), ((4,), "[-1, 0]"),
     ((3, 4), "(slice(None), slice(None, None, -1))"), ((3, 4), "(slice(None, None, -1), slice(None))"), ((3, 4), "(slice(None, None, -1),)"), ((3, 4), "(slice(0, 3), slice(3, None, -1))"),
     ((3, 4), "(slice(None, None, -1), slice(None, None, -1))"), ((2, 3, 2), "(slice(None), slice(None, None, -1), slice(None))"), ((4,), "(slice(None, None, -1),)"),
+    ((4,), "(slice(None, None, -1), None)"), ((3, 4), "(None, slice(None), slice(None, None, -1))"), ((3, 4), "(slice(None, None, -1), None, slice(None))"), ((3, 4), "(Ellipsis, None, slice(None, None, -1))"),
+    ((3, 4), "(slice(None, None, -2), None)"), ((2, 3), "(None, Ellipsis)"), ((2, 3), "(slice(None), None, slice(None))"),
     ((2, 3), "[True, False]"), ((3,), "[True, False, True]"), ((2, 3), "[[True, False, True], [False, True, True]]"),
     ((3, 4), "1"), ((3, 4), "(1, 2)"), ((3, 4), "(slice(None), 1)"), ((3, 4), "(slice(None), [0, 0, 2])"), ((3, 4), "([1, 1, 2], [2, 2, 0])"), ((3, 4), "(Ellipsis, -1)"),
     ((3, 4), "(slice(None, None, 2), slice(1, None, 2))"), ((3, 4), "(None, 1, None)"), ((3, 4), "__import__('numpy').array([[True, False, True, False], [False, False, False, True], [True, True, False, False]])"),
@@ -245,6 +247,14 @@ def _index_cases():
         for combo in itertools.permutations(["s1", "s2", "d1", "s3"], k):
             expr = " + ".join(f"anp.sum({uses[u]}) * {i + 2}" for i, u in enumerate(combo))
             C.append(dict(label=f"mix[{','.join(combo)}]|(3,)|arg0", src=f"lambda anp, x: {expr}", shapes=[(3,)], argnum=0, mode="sym", second=True))
+    # dense contributions that are VIEWS of a shared cotangent (transpose / reshape / ravel), followed or preceded by sparse ones
+    W = "__import__('numpy').arange(1.0, 10.0).reshape(3, 3)"
+    for lab, expr in (("view-T+sparse", f"anp.sum({W} * (x * x + (x[[0, 0, 2]] + x.T)))"), ("sparse+view-T", f"anp.sum({W} * ((x[[0, 0, 2]] + x.T) + x * x))"),
+                      ("view-reshape+sparse", f"anp.sum({W} * (x * 2 + (x[[1, 1, 0]] + anp.reshape(x, (3, 3)))))"), ("view-ravel+sparse", f"anp.sum({W}.ravel() * (anp.ravel(x) + (anp.ravel(x)[[0, 0, 8, 4, 4, 1, 2, 3, 5]] + anp.ravel(x * 1))))"),
+                      ("diamond-view", f"anp.sum({W} * ((x.T + x[::-1]) + (x.T + x[[2, 2, 0]])))"), ("swap+sparse", f"anp.sum({W} * (anp.swapaxes(x, 0, 1) + x[:, [0, 0, 1]] + x))")):
+        for mode in ("sym", "flt"):
+            e_ = expr if mode == "sym" else expr.replace("x * x", "x * 3")   # float mode is exact for LINEAR maps only
+            C.append(dict(label=f"mix[{lab}]|(3, 3)|arg0|{mode}", src=f"lambda anp, x: {e_}", shapes=[(3, 3)], argnum=0, mode=mode, second=False))
     return C
 
 
